@@ -15,6 +15,7 @@ from ..runner import Outcome
 ID = 'C12'
 LEVEL = 'exploration'
 UNITS = ['mJy', 'Jy', 'erg / (cm2 s)', 'erg / s']
+NAME_POOL = ['aa_00', 'aa_01', 'Ab-2', 'x.3', 'model_0004', 'm5', 'm50', 'grid_c']
 RULE = ('Seeded histories of 2..8 operations on a directory with <= 3 paths: put_sed / put_cube / put_conv (objects of 1..6 models, 1..5 '
         'apertures or none, 2..40 wavelengths ascending or descending, with/without uncertainties, four flux units; overwrite=True when the '
         'path is in use, usually with another shape), get_sed(order, stored unit), get_cube(order, memmap) + get_sed(name) for a stored name, '
@@ -23,7 +24,7 @@ RULE = ('Seeded histories of 2..8 operations on a directory with <= 3 paths: put
 ASSUMPTIONS = ['fault-free by statement: no crash / truncation is injected here', 'SED values are compared within 1e-12 relative (SED.read multiplies and divides by nu even when the unit is unchanged); cube and convolved files exactly',
                'for an SED written without apertures only the single row of values is required (apertures need not come back as None)']
 PROBES = ['overwrite_other_shape', 'sed_asc_written', 'sed_desc_written', 'cube_no_unc', 'cube_no_apertures', 'cube_memmap_read', 'cube_get_sed',
-          'read_order_wav', 'read_order_nu', 'unit_erg', 'unit_jy', 'conv_no_apertures', 'stale_memmap_reader', 'sed_no_apertures', 'gz_path', 'gz_sibling_present', 'read_in_other_unit', 'uncertainties_in_other_unit', 'cube_get_sed_twice']
+          'read_order_wav', 'read_order_nu', 'unit_erg', 'unit_jy', 'conv_no_apertures', 'stale_memmap_reader', 'sed_no_apertures', 'gz_path', 'gz_sibling_present', 'read_in_other_unit', 'uncertainties_in_other_unit', 'cube_get_sed_twice', 'name_at_other_position_in_earlier_cube']
 
 
 def budgets(tier):
@@ -39,6 +40,10 @@ def _gen_obj(rng, kind):
          'unit': rng.choice(UNITS) if kind != 'conv' else 'mJy', 'seed': rng.randrange(1 << 30), 'dist': float('%.4g' % (10 ** rng.uniform(-1, 1)))}
     # uncertainties may be stored in another unit of the same family than the values (each extension carries its own unit)
     o['unc_unit'] = rng.choice(['mJy', 'Jy']) if (o['unit'] in ('mJy', 'Jy') and kind != 'conv' and rng.random() < 0.5) else o['unit']
+    if rng.random() < 0.7:
+        # model names come from one small pool shared by every object of the history, in any order: two files (or two
+        # generations of one path) then hold the same name at different positions
+        o['names'] = rng.sample(NAME_POOL, o['n_models'])
     return o
 
 
@@ -101,6 +106,8 @@ class _Ref(object):
         self.val = 10 ** g.uniform(-3, 3, (nm, na, nw))
         self.unc = self.val * g.uniform(0.01, 0.1, self.val.shape) if o['has_unc'] else None
         self.names = ['%s%s_%02d' % ('abcdefghijklmnopqrstuvwxyz'[int(g.integers(0, 26))], 'abcdefghijklmnopqrstuvwxyz'[int(g.integers(0, 26))], i) for i in range(nm)]
+        if o.get('names'):
+            self.names = list(o['names'])[:nm]
         self.o = o
 
 
@@ -186,6 +193,7 @@ def _execute(sc, sim, out):
     from sedfitter.sed import SED, SEDCube
     from sedfitter.convolved_fluxes import ConvolvedFluxes
     store = {}
+    seen_cubes = []
     open_cubes = []       # (cube object read with memmap, reference it was read from, order)
     trace = []
     for i, st in enumerate(sc['steps']):
@@ -292,6 +300,12 @@ def _execute(sc, sim, out):
             c = r[1]
             if st['memmap']:
                 out.probe('cube_memmap_read')
+            for R0 in seen_cubes:
+                if R0 is not R and any(nm_ in R0.names and R0.names.index(nm_) != j for j, nm_ in enumerate(R.names)):
+                    out.probe('name_at_other_position_in_earlier_cube')
+                    break
+            if not any(R0 is R for R0 in seen_cubes):
+                seen_cubes.append(R)
             msg = _check_cube(c, R, order, out, what)
             if msg is None:
                 k = st['pick'] % len(R.names)
@@ -311,6 +325,17 @@ def _execute(sc, sim, out):
                     msg = 'get_sed(%s) errors do not match the stored uncertainties' % R.names[k]
                 elif sd.name != R.names[k]:
                     msg = 'get_sed name %s' % sd.name
+                if msg is None and len(R.names) > 2:
+                    # every other model of the cube as well (each must be the SED stored under that name in THIS file)
+                    for k3 in range(len(R.names)):
+                        r3 = pipe.call(c.get_sed, R.names[k3])
+                        out.compared('cube-sed-cells', int(R.val[k3].size))
+                        if r3[0] != 'ok':
+                            msg = 'get_sed(%s) raised %s' % (R.names[k3], pipe.exc_name(r3))
+                        elif r3[1].name != R.names[k3] or not np.array_equal(np.asarray(r3[1].flux.value, float), R.val[k3][:, idx]):
+                            msg = 'get_sed(%s) does not return the SED that was put in under that name' % R.names[k3]
+                        if msg:
+                            break
                 if msg is None and len(R.names) > 1:
                     # extract the other models from the SAME cube object, then look at the first one again
                     k2 = (k + 1 + st['pick'] // 7) % len(R.names)
@@ -352,6 +377,8 @@ def lowerings(sc, viol=None):
     for i, st in enumerate(sc['steps']):
         if st['op'] == 'put':
             o = st['obj']
+            if o.get('names'):
+                yield dict(sc, steps=sc['steps'][:i] + [dict(st, obj={k_: v_ for k_, v_ in o.items() if k_ != 'names'})] + sc['steps'][i + 1:])
             for key, val in (('n_models', 1), ('n_ap', 1), ('n_ap', 2), ('n_wav', 2), ('n_wav', 3), ('unit', 'mJy'), ('has_unc', True), ('asc', False), ('has_ap', True)):
                 if o[key] != val and not (key == 'n_wav' and (o['kind'] == 'conv' or o['n_wav'] < val)) and not (key == 'n_ap' and o['n_ap'] < val) \
                         and not (key == 'has_ap' and False) and not (key == 'has_unc' and o['kind'] != 'cube'):
